@@ -354,8 +354,12 @@ def _export_jobs(jobs, path, copytree):
         path_function = _make_path_function(jobs, path)
         # path_function is checked for uniqueness inside _make_path_function
 
-    # Determine export path for each job.
+    # Determine export path for each job. The paths are normalized, different
+    # spellings of one location ('a/1', 'a//1', './a/1', 'a/1/') are not unique.
     paths = {job.path: path_function(job) for job in jobs}
+    paths = {src: os.path.normpath(dst) if dst else dst for src, dst in paths.items()}
+    if len(set(paths.values())) != len(paths):
+        raise RuntimeError("The export paths of the jobs are not unique.")
 
     # All data must be exported to locations beneath the target.
     for dst in paths.values():
